@@ -219,7 +219,7 @@ def stream_cases(prop, tier, seed, sched_cases=()):
                 rand_cdrop=prop in ("C11",) and rng.random() < 0.5, extra=1)
     if prop in ("C17", "C15"):
         for hdr, a in AE_CHOICES:
-            for level in range(0, 10):
+            for level in range(0, 11):      # 10 is accepted by the encoder too
                 for method in ("GET", "HEAD", "POST"):
                     for parts in (False, True):
                         cap = rng.choice([1, 7, 4096])
